@@ -61,17 +61,23 @@ def _extract_atomic_constructs(text: str) -> tuple[dict[int, str], str]:
     return construct_map, text_with_placeholders
 
 
+_PLACEHOLDER_RE = re.compile(
+    re.escape(_PLACEHOLDER_PREFIX) + r"([0-9]+)" + re.escape(_PLACEHOLDER_SUFFIX)
+)
+
+
 def _restore_atomic_constructs(tokens: list[str], construct_map: dict[int, str]) -> list[str]:
     """
     Restore original constructs from placeholders in token list.
     """
-    result: list[str] = []
-    for token in tokens:
-        for idx, construct in construct_map.items():
-            placeholder = f"{_PLACEHOLDER_PREFIX}{idx}{_PLACEHOLDER_SUFFIX}"
-            token = token.replace(placeholder, construct)
-        result.append(token)
-    return result
+
+    # One left-to-right pass per token. Replacing the placeholders one index after the other
+    # can match across two neighbouring placeholders: the end of one, text like "AC0", and
+    # the start of the next one together spell the placeholder of construct 0.
+    def restore(match: re.Match[str]) -> str:
+        return construct_map.get(int(match.group(1)), match.group(0))
+
+    return [_PLACEHOLDER_RE.sub(restore, token) for token in tokens]
 
 
 class _HtmlMdWordSplitter:
